@@ -154,9 +154,11 @@ def run(ctx):
                 sample={'warnings_mention': b.short, 'role': role})
     C.floor('C08-WHO-warnings', len(mw), 3)
     # in optional_error the &mut warnings goes only into Vec::push
-    ob = P.get(OPT)
+    ob0 = P.get(OPT)
+    # the error value may be built by the parser's own constructor helper `error`: judge optional_error together with it
+    ob = P.view_inlined(ob0, r'ArxmlParser[^:]*(::<[^>]*>)?::error$')
     for (b, pos, role, pl, st) in mw:
-        if b is ob and role == 'refmut':
+        if b is ob0 and role == 'refmut':
             t = forward_taint(ob, {st['dst']['l']}, through_refs=False)
             for p2, r2, pl2, st2 in uses_of_locals(ob, t):
                 if r2 in ('def',):
@@ -450,10 +452,31 @@ def must_checks(C, P):
     oe = [pos for pos, t in ve.calls_to(r'optional_error$')]
     C.check(bool(oe) and bool(ve.calls_to and list(ve.calls_to(r'ArxmlLexer.*::next$'))), 'C08-MUST-checks', 'verify_end_of_input|reports-trailing-data',
             'verify_end_of_input no longer reports data after the root element')
-    # Ok exits of verify_end_of_input: each is dominated by lexer.next and, unless on the EndOfFile edge, by optional_error
+    # verify_end_of_input: a literal Ok is returned only for the EndOfFile event; every other way to an Ok passes optional_error
+    # (returning the Result of optional_error itself - tail position - is such a way).  Formulated over edges, not over the number of exits.
     voks = ok_exits(ve)
-    n_after = sum(1 for o in voks if any(ve.pos_dominates(p, o) for p in oe))
-    C.check(len(voks) == 2 and n_after == 1, 'C08-MUST-checks', 'verify_end_of_input|ok-exits', 'verify_end_of_input: expected two Ok exits, one of them behind optional_error(AdditionalDataError); found %d/%d' % (n_after, len(voks)))
+    nx = [pos for pos, t in ve.calls_to(r'ArxmlLexer.*::next$')]
+    ev = P.adts.get('ArxmlEvent')
+    eof_idx = [str(i) for i, v in enumerate(ev['variants']) if v['name'] == 'EndOfFile'] if ev else []
+    cut = set()
+    for pos, st in ve.iter_stmts():
+        if st['k'] == 'assign' and st['rv']['k'] == 'discr' and not st['dst']['p']:
+            pl = st['rv']['pl']
+            # the discriminant of the ArxmlEvent of the lexer result (moved into a local of its own, or still inside the tuple / Result):
+            # a switch with a target for the index of EndOfFile (Result / ControlFlow discriminants only have 0 and 1)
+            if 'ArxmlEvent' in (ve.local_ty(pl['l']) or ''):
+                sw = ve.blocks[pos[0]]['term']
+                if sw['k'] == 'switch' and is_local_op(sw['d']) and sw['d']['l'] == st['dst']['l'] and eof_idx:
+                    tgt = dict(sw['ts']).get(eof_idx[0])
+                    if tgt is not None:
+                        cut.add((pos[0], tgt))
+    if not nx or not eof_idx or not cut:
+        C.anchor_missing('C08-MUST-checks', 'verify_end_of_input: lexer.next / test for the EndOfFile event')
+    else:
+        ok = must_pass(ve, nx[0], voks, oe, avoid_edges=cut, include_start=False) if voks else True
+        ret_other = [pos for pos, t in ve.iter_calls() if t['dst']['l'] == 0 and not t['dst']['p'] and not call_matches(t, r'optional_error$|from_residual$')]
+        C.check(ok and not ret_other, 'C08-MUST-checks', 'verify_end_of_input|ok-only-for-EOF-or-after-report', 'verify_end_of_input can return Ok for an event other than EndOfFile without passing optional_error(AdditionalDataError)',
+                ve.where(voks[0]) if voks else '', sample={'fn': 'verify_end_of_input', 'ok_exits': len(voks), 'must_pass': 'optional_error unless the event is EndOfFile'})
 
     # parse_attribute_text
     pt = P.get('ArxmlParser::parse_attribute_text')
